@@ -183,6 +183,9 @@ func (_this *RulesEventReceiver) OnBigFloat(value *big.Float) {
 		return
 	}
 
+	if !value.IsInf() {
+		_this.context.ValidateFloatExponent(int64(value.MantExp(nil)))
+	}
 	_this.context.NotifyNewObject(true)
 	_this.context.CurrentEntry.Rule.OnNonKeyableObject(&_this.context, DataTypeFloat)
 	_this.receiver.OnBigFloat(value)
